@@ -206,7 +206,7 @@ func (l *srcLog) show(name string) string {
 type registry struct {
 	static  []*srcLog
 	dynamic []*srcLog
-	taps    []*tapS      // one in front of every stream.WithPeek / stream.Runs of the case, in build order
+	taps    []*tapS      // one in front of every stream.WithPeek / stream.Runs / stream.Compact(Func) of the case, in build order
 	fromits []*fromitRec // one around every stream.FromIterator of the case (conserve.go: fromitConservation)
 }
 
@@ -625,11 +625,11 @@ func stageS(reg *registry, p stream.Stream[any], tok string) (stream.Stream[any]
 		return &convS[[]any, any]{stream.Chunk(p, atoi(arg)), func(x []any) any { return x }}, true
 	case "compact":
 		api("stream.CompactFunc")
-		return stream.CompactFunc(p, relOf(arg)), true
+		return stream.CompactFunc[any](newTap(reg, p), relOf(arg)), true // the tap: conserve.go, compactConservation
 	case "compactw":
 		api("stream.Compact")
 		t := keyTable{}
-		return &convS[string, any]{stream.Compact[string](&convS[any, string]{p, t.key}), func(k string) any { return t[k] }}, true
+		return &convS[string, any]{stream.Compact[string](&convS[any, string]{newTap(reg, p), t.key}), func(k string) any { return t[k] }}, true
 	case "filter":
 		api("stream.Filter")
 		return stream.Filter(p, predE(arg)), true
